@@ -324,6 +324,7 @@ func TestCheck(t *testing.T) {
 	failingLookups(rep)
 	repopulate(rep)
 	taggedEmbedded(rep)
+	presetBytes(rep)
 	if env.Thorough() {
 		olderFields(rep, 7)
 	} else {
@@ -1191,4 +1192,70 @@ func olderFields(rep *report.Report, depth int) {
 	}
 	sec.Transitions = sec.States
 	sec.Samples = append(sec.Samples, "parse newstore rotate apply1", "parse parse apply1", "parse apply1 parse rotate apply1")
+}
+
+type bytesFields struct {
+	A []byte `setec:"a"`
+	B []byte `setec:"b"`
+	U []byte
+}
+
+// presetBytes: []byte fields that hold something before they are populated - sharing memory with each
+// other, with an untagged field, or with a copy of the struct made earlier. Each tagged field must end up
+// with its own secret's bytes, and nothing else the caller can see may change.
+func presetBytes(rep *report.Report) {
+	sec := rep.Add(&report.Section{Name: "byte-fields-preset-to-shared-memory", Engine: "enum", Exhaustive: true, Extra: map[string]int64{},
+		Rule: "a struct with two tagged []byte fields and an untagged one, all three preset to slices of one 16-byte buffer (capacity larger than the secrets), populated through {ParseFields+Apply, NewStore(Structs)}; and a populated struct copied by value and populated again under another prefix: every tagged field holds its own secret, the untagged field and the earlier copy keep their bytes; non-trivial = all"})
+	sv := &svc{vals: map[string][]byte{"p/a": []byte("AAAA"), "p/b": []byte("bbbb"), "q/a": []byte("QQQQ"), "q/b": []byte("qqqq")}}
+	st, err := setec.NewStore(context.Background(), setec.StoreConfig{Client: sv, Secrets: []string{"p/a", "p/b", "q/a", "q/b"}, PollInterval: -1, Logf: func(string, ...any) {}})
+	if err != nil {
+		panic(err)
+	}
+	defer st.Close()
+	populate := func(via string, v *bytesFields, prefix string) error {
+		if via == "apply" {
+			fs, err := setec.ParseFields(v, prefix)
+			if err != nil {
+				return err
+			}
+			return fs.Apply(context.Background(), st)
+		}
+		s2, err := setec.NewStore(context.Background(), setec.StoreConfig{Client: sv, Structs: []setec.Struct{{Value: v, Prefix: prefix}}, PollInterval: -1, Logf: func(string, ...any) {}})
+		if s2 != nil {
+			s2.Close()
+		}
+		return err
+	}
+	for _, via := range []string{"apply", "newstore"} {
+		sec.Evaluations++
+		sec.Nontrivial++
+		buf := []byte("0123456789abcdef")
+		v := bytesFields{A: buf[:8], B: buf[:8], U: buf[:8]}
+		if err := populate(via, &v, "p"); err != nil {
+			rep.Violate(sec.Name, "preset-bytes/error: "+via, via+": "+err.Error(), nil)
+			continue
+		}
+		if string(v.A) != "AAAA" || string(v.B) != "bbbb" {
+			rep.Violate(sec.Name, "preset-bytes/fields: "+via, fmt.Sprintf("via %s: fields preset to one shared buffer hold A=%q B=%q after population, want \"AAAA\" and \"bbbb\"", via, v.A, v.B), nil)
+		}
+		if string(v.U) != "01234567" || string(buf) != "0123456789abcdef" {
+			rep.Violate(sec.Name, "preset-bytes/untagged: "+via, fmt.Sprintf("via %s: the untagged field reads %q and the caller's buffer %q after population (they were \"01234567\" / \"0123456789abcdef\")", via, v.U, buf), nil)
+		}
+		// a copy of the populated struct, populated again under another prefix
+		sec.Evaluations++
+		sec.Nontrivial++
+		dev := bytesFields{}
+		if err := populate(via, &dev, "p"); err != nil {
+			continue
+		}
+		prod := dev
+		if err := populate(via, &prod, "q"); err != nil {
+			rep.Violate(sec.Name, "preset-bytes/error: "+via, via+": "+err.Error(), nil)
+			continue
+		}
+		if string(dev.A) != "AAAA" || string(dev.B) != "bbbb" || string(prod.A) != "QQQQ" || string(prod.B) != "qqqq" {
+			rep.Violate(sec.Name, "preset-bytes/copied-struct: "+via, fmt.Sprintf("via %s: after populating a copy under prefix q the first struct holds A=%q B=%q (want AAAA, bbbb) and the copy A=%q B=%q (want QQQQ, qqqq)", via, dev.A, dev.B, prod.A, prod.B), nil)
+		}
+	}
+	sec.States, sec.Transitions = sec.Evaluations, sec.Evaluations
 }
